@@ -2,7 +2,7 @@
 From Cfb.model Require Import Base Names DirEnt State Alloc Dir Mini Store Handle Open Cfb.
 From Cfb.gen Require Import Consts.
 From Cfb.spec Require Import Tree.
-From Cfb.proofs Require Import DirProofs ChainProofs QueryRefine HandleFrame DataFrame.
+From Cfb.proofs Require Import DirProofs ChainProofs QueryRefine HandleFrame DataFrame SmallShrink.
 Set Printing Width 110.
 
 (* for EVERY table: removing an entry frees exactly its own slot; every other slot keeps name, type, start sector, length, CLSID, state bits and times (only sibling links / colour may change) *)
@@ -94,6 +94,18 @@ Theorem C07_every_write_case_frames_other_streams : ltac:(let t := type of write
 Proof. exact write_case_frames. Qed.
 Check C07_every_write_case_frames_other_streams.
 Print Assumptions C07_every_write_case_frames_other_streams.
+
+(* SmallShrink: all 12 resize cases incl. the small shrink *)
+Theorem C07_small_shrink_frames_other_streams : ltac:(let t := type of resize_case12_frames in exact t).
+Proof. exact resize_case12_frames. Qed.
+Check C07_small_shrink_frames_other_streams.
+Print Assumptions C07_small_shrink_frames_other_streams.
+
+(* OHSetLen at handle level over all 12 cases *)
+Theorem C07_set_len_frames_in_all_twelve_cases : ltac:(let t := type of setlen_frames_full12 in exact t).
+Proof. exact setlen_frames_full12. Qed.
+Check C07_set_len_frames_in_all_twelve_cases.
+Print Assumptions C07_set_len_frames_in_all_twelve_cases.
 
 (* THE PROPERTY at the level of step over covered_op2: other entries identical, metadata of every entry unchanged, every other stream's content kept, other handle slots untouched - through allocation, mini-sector allocation / freeing and both migrations *)
 Theorem C07_handle_ops_frame_other_streams_in_all_covered_cases : ltac:(let t := type of handle_op_frames_others_full in exact t).
